@@ -214,6 +214,55 @@ func (x *tmRefF) Range(f func(k, v int) bool) {
 	x.m.Range(func(k, v any) bool { return f(k.(int), rfIdx(v)) })
 }
 
+// "nankey": K = float64, key 1 = 1.0 and key 2 = NaN (a key that is not equal to itself)
+func nkOf(k int) float64 {
+	if k == 2 {
+		return math.NaN()
+	}
+	return float64(k)
+}
+func nkIdx(f float64) int {
+	if f != f {
+		return 2
+	}
+	return int(f)
+}
+
+type tmNan struct{ m xsync.Map[float64, int] }
+
+func (x *tmNan) Load(k int) (int, bool)           { return x.m.Load(nkOf(k)) }
+func (x *tmNan) Store(k, v int)                   { x.m.Store(nkOf(k), v) }
+func (x *tmNan) LoadOrStore(k, v int) (int, bool) { return x.m.LoadOrStore(nkOf(k), v) }
+func (x *tmNan) LoadAndDelete(k int) (int, bool)  { return x.m.LoadAndDelete(nkOf(k)) }
+func (x *tmNan) Delete(k int)                     { x.m.Delete(nkOf(k)) }
+func (x *tmNan) Swap(k, v int) (int, bool)        { return x.m.Swap(nkOf(k), v) }
+func (x *tmNan) CompareAndSwap(k, o, n int) bool  { return x.m.CompareAndSwap(nkOf(k), o, n) }
+func (x *tmNan) CompareAndDelete(k, o int) bool   { return x.m.CompareAndDelete(nkOf(k), o) }
+func (x *tmNan) Range(f func(k, v int) bool) {
+	x.m.Range(func(k float64, v int) bool { return f(nkIdx(k), v) })
+}
+
+// tmRefNan: raw sync.Map with the same keys (the reference for "nankey")
+type tmRefNan struct{ m sync.Map }
+
+func (x *tmRefNan) Load(k int) (int, bool) { v, ok := x.m.Load(nkOf(k)); return anyIdx(v), ok }
+func (x *tmRefNan) Store(k, v int)         { x.m.Store(nkOf(k), v) }
+func (x *tmRefNan) LoadOrStore(k, v int) (int, bool) {
+	a, ok := x.m.LoadOrStore(nkOf(k), v)
+	return anyIdx(a), ok
+}
+func (x *tmRefNan) LoadAndDelete(k int) (int, bool) {
+	v, ok := x.m.LoadAndDelete(nkOf(k))
+	return anyIdx(v), ok
+}
+func (x *tmRefNan) Delete(k int)                    { x.m.Delete(nkOf(k)) }
+func (x *tmRefNan) Swap(k, v int) (int, bool)       { p, ok := x.m.Swap(nkOf(k), v); return anyIdx(p), ok }
+func (x *tmRefNan) CompareAndSwap(k, o, n int) bool { return x.m.CompareAndSwap(nkOf(k), o, n) }
+func (x *tmRefNan) CompareAndDelete(k, o int) bool  { return x.m.CompareAndDelete(nkOf(k), o) }
+func (x *tmRefNan) Range(f func(k, v int) bool) {
+	x.m.Range(func(k, v any) bool { return f(nkIdx(k.(float64)), v.(int)) })
+}
+
 type tmInst struct{ m tmap }
 
 func (t TypedMap) New() lts.Instance {
@@ -228,6 +277,10 @@ func (t TypedMap) New() lts.Instance {
 		return &tmInst{&tmFloat{}}
 	case "reffloat":
 		return &tmInst{&tmRefF{}}
+	case "nankey":
+		return &tmInst{&tmNan{}}
+	case "refnan":
+		return &tmInst{&tmRefNan{}}
 	case "anyslice":
 		return &tmInst{&tmSlice{}}
 	}
@@ -266,7 +319,7 @@ func (x *tmInst) Do(op lts.Op) any {
 func (x *tmInst) entries() [][]int {
 	out := [][]int{}
 	x.m.Range(func(k, v int) bool { out = append(out, []int{k, v}); return true })
-	sort.Slice(out, func(i, j int) bool { return out[i][0] < out[j][0] })
+	sort.Slice(out, func(i, j int) bool { return out[i][0] < out[j][0] || (out[i][0] == out[j][0] && out[i][1] < out[j][1]) })
 	return out
 }
 
